@@ -37,11 +37,15 @@ func verifCellCarried(c string, v octosql.Value) bool {
 
 func VerifC23CSV() {
 	rows, l := zzverif.Param("ROWS"), zzverif.Param("L")
+	symB := zzverif.Param("B") == 1 // B=1: both columns symbolic; B=0: column b holds the row number
 	cells := make([][2]string, rows)
 	content := "a,b\n"
 	for r := range cells {
-		for c := 0; c < 2; c++ {
-			cells[r][c] = verifCell(fmt.Sprintf("r%d.c%d", r, c), l)
+		cells[r][0] = verifCell(fmt.Sprintf("r%d.c0", r), l)
+		if symB {
+			cells[r][1] = verifCell(fmt.Sprintf("r%d.c1", r), l)
+		} else {
+			cells[r][1] = strconv.Itoa(r) // concrete row number: shows the order
 		}
 		content += cells[r][0] + "," + cells[r][1] + "\n"
 	}
